@@ -24,7 +24,15 @@ RULE = ("every binary operator (+ - * / and or xor == != < <= > >=) x right-hand
 CORRESPONDENCE_ONLY = []   # filled below
 EXPLANATION = ("pyttb's raw result (sparse: shape/subs/vals lists; dense: F-order data) is compared in Coq against the executable "
                "element-wise specification spec_ew / spec_div (Model/C03Ops.v) evaluated on the literal operands; the theorems of "
-               "Props/C03.v prove that the modelled sparse algorithms compute exactly that specification for all inputs.")
+               "Props/C03.v prove that the modelled sparse algorithms compute exactly that specification for all inputs. Tie A: "
+               "the algorithms that pair or split stored entries (sparse*sparse, sparse==sparse, logical_not, < <= > >=, != scalar, "
+               "/ scalar 0) are transliterated over tt_intersect_rows / tt_setdiff_rows / tt_ismember_rows as REGENERATED from "
+               "pyttb_utils.py on every run; their index contracts on duplicate-free rows are theorems (C03_rows_*), so a change of a "
+               "helper breaks the proof and the correspondence (operands in reversed/random stored order) finds the failing input. "
+               "Finite clause of the property text: quick = ALL 4^cells zero-pattern pairs x EVERY binary operator x {sparse, dense} "
+               "right-hand side for every shape of <= 4 cells used ((2,2), (3,), (2,1)); thorough adds all pattern pairs of (2,3) "
+               "(6 cells, 3 operators per pair, rotating) and (2,2,2) (8 cells, 1 operator per pair, rotating): every pair of patterns up "
+               "to 8 cells is run, not every operator on every 8-cell pair (1.7M cases); the general theorems cover all of them.")
 
 VALS = (-2, -1, 1, 2, 3)
 SCALARS = (-1, 0, 2)
@@ -271,8 +279,14 @@ WITNESS_INPUTS = {
 WITNESSES = {k: _witness(*v) for k, v in WITNESS_INPUTS.items()}
 
 CORRESPONDENCE_ONLY = [
-    "__truediv__ (scalar, dense, sparse right-hand side) and __rtruediv__: executable IEEE specification spec_div/spec_rdiv over xval, no algorithm proof",
-    "__eq__/__ne__ own algorithms (the generic comparison theorem covers their specification, not their code path)",
-    "logical_and with a dense tensor, logical_or/xor with scalar or dense (dense path proved generically as full-then-map)",
+    "__truediv__ with a SPARSE right-hand side: the code as it is (open finding A-07) is transliterated over the generated helpers, refuted "
+    "(C03_div_sparse_asis_refuted) and proved right only for operands with identical stored subscript lists (C03_div_sparse_asis_partial); "
+    "the correct quotient is checked against the executable IEEE specification spec_div only",
+    "__truediv__ with a DENSE right-hand side at positions where both operands are 0 (open finding C03-N5: C03_div_dense_refuted / _partial)",
+    "__rtruediv__ (scalar / sparse) and sparse (+ - or xor) scalar/dense: full() then the dense operator: proved generically "
+    "(C03_dense_result_scalar / _dense for any element function), the dense operator itself is tensor.py's (C02)",
+    "_compare groups 1 and 2 are written in the source with `opposite_operator`; the model states them with the operator itself "
+    "(equal on the nonzero stored values they are applied to); tied by correspondence",
+    "__eq__ (scalar, dense), __ne__ (sparse, dense): hand transliterations (tt_union_rows and boolean-mask scatter are not generated); proved = spec, tied by correspondence",
     "sparse * Kruskal, sparse / Kruskal (not generated)",
 ]
